@@ -381,6 +381,8 @@ where
     fn create<T: ObjectWrite>(&mut self, obj: T) -> Result<RcRef<T>> {
         let id = self.refs.len() as u64;
         self.refs.push(XRef::Promised);
+        // whatever was cached under this number (an error, if it was looked up before) is stale now
+        self.cache.clear();
         let primitive = obj.to_primitive(self)?;
         self.changes.insert(id, (primitive, 0));
         let rc = Shared::new(obj);
@@ -401,6 +403,8 @@ where
             XRef::Invalid => panic!()
         };
         let primitive = obj.to_primitive(self)?;
+        // the cached typed object of this reference (and of anything built from it) is stale now
+        self.cache.clear();
         match self.changes.entry(old.id) {
             Entry::Vacant(e) => {
                 e.insert((primitive, r.gen));
